@@ -28,7 +28,7 @@ fl = env.fl
 REJECT = (SyntaxError, ValueError, KeyError)
 LISTED = ["missing_keyword", "missing_variable", "missing_term", "missing_operand", "unknown_name", "unbalanced_paren",
           "bad_weight", "trailing_token"]
-GENERIC = ["delete", "duplicate", "swap", "substitute", "truncate", "insert"]
+GENERIC = ["delete", "duplicate", "swap", "substitute", "truncate", "insert", "any_prop"]
 WORDS = ["if", "then", "is", "and", "or", "with", "not", "very", "any", "somewhat", "(", ")", "0.5", "1", "-1", "nan", "inf", "zzz",
          "i0", "i1", "o0", "o1", "a", "b", "p", "q", "sin", "+", "*", ",", "pi", "~", "!", "^", "max", ":", "rule:", "x", "e", "%"]
 
@@ -129,8 +129,24 @@ def inject_listed(rng, r: dict, cls: str) -> list[str] | None:
     raise AssertionError(cls)
 
 
-def mutate_generic(rng, words: list[str], kind: str, vocabulary: list[str] | None = None) -> list[str]:
+def mutate_generic(rng, words: list[str], kind: str, vocabulary: list[str] | None = None, variables: list[str] | None = None) -> list[str]:
     WORDS = (vocabulary or []) + globals()["WORDS"]  # noqa: N806 - the engine's own identifiers first
+    if kind == "any_prop":
+        # grammatical, but degenerate: replace one antecedent proposition by `<some variable of the engine> is any`
+        # (whatever the library decides - accept or reject - an accepted rule must be evaluable)
+        if "then" not in words or not variables:
+            kind = "substitute"
+        else:
+            end = words.index("then")
+            starts = [j for j in range(1, end) if j + 1 < end and words[j + 1] == "is"]
+            if not starts:
+                kind = "substitute"
+            else:
+                a = rng.choice(starts)
+                b = a + 2
+                while b < end and words[b] not in ("and", "or", ")", "then"):
+                    b += 1
+                return words[:a] + [rng.choice(variables), "is"] + rng.choice([[], ["not"], ["very"]]) + ["any"] + words[b:]
     n = len(words)
     if n == 0:
         return [rng.choice(WORDS)]
@@ -224,6 +240,22 @@ def rule_snap(r) -> tuple:
             tuple(id(c) for c in r.consequent.conclusions))
 
 
+def eval_error_tolerated(rule, blk) -> bool:
+    """May evaluating this *loaded* rule legitimately raise ValueError / RuntimeError? Yes if a connective's operator
+    is missing in the block, or if a term it mentions computes from engine state (Function / Linear: unknown
+    variable names, wrong arity are configuration errors). Otherwise an accepted rule must evaluate."""
+    if blk.conjunction is None or blk.disjunction is None:
+        return True
+
+    def walk(node) -> bool:
+        if node is None:
+            return False
+        if hasattr(node, "left"):
+            return walk(node.left) or walk(node.right)
+        return isinstance(node.term, (fl.Function, fl.Linear))
+    return walk(rule.antecedent.expression)
+
+
 def classify(e: BaseException) -> str:
     if isinstance(e, REJECT) and not isinstance(e, IndexError):
         return "rejected"
@@ -254,7 +286,7 @@ class C16(Sim):
         "failed_load_on_previously_activated_rule", "antecedent_good_consequent_bad", "reload_with_one_bad_rule_among_good",
         "torn_inside_token", "torn_inside_rule", "torn_inside_term_line", "torn_after_engine_line", "corrupted_document_accepted",
         "import_failure_in_second_rule_block", "parse_phase_rejection_atomic", "restored_engine_equals_fresh_twin",
-        "listed_error_in_stored_rule", "shipped_example_engine",
+        "listed_error_in_stored_rule", "shipped_example_engine", "library_debug_mode",
     ]
 
     def prepare(self) -> None:
@@ -265,6 +297,9 @@ class C16(Sim):
         sp = S.gen_spec(rng, activations=["General"], fn_reads_output=False, cascade=False, disabled=0.04, mixed_types=0.0)
         if rng.random() < 0.12:
             sp = S.example_spec(rng, allow_fn_reads_output=True, randomise_cascade=False) or sp
+        if rng.random() < 0.08:
+            # a variable without terms (legal; shipped examples have them): it can only be mentioned with `any`
+            sp["inputs"].append({"name": "aux", "min": 0.0, "max": 1.0, "lock_range": False, "enabled": True, "terms": []})
         n_blocks = len(sp["blocks"])
         ops: list[dict] = [{"op": "process", "row": S.draw_row(rng, sp, 0.1)}]
         for _ in range(rng.randint(3, 12 if tier == "quick" else 20)):
@@ -309,7 +344,10 @@ class C16(Sim):
                         ops.append({"op": "corrupt_store", "c": {"kind": kind, "pos": rng.randrange(256), "wpos": rng.randrange(16),
                                                                  "cpos": rng.randrange(8), "byte": rng.choice([0, 9, 10, 13, 32, 35, 58, 127, 128, 192, 237, 255, rng.randrange(256)]), "word": rng.choice(WORDS + ["true", "false", "none", "Centroid", "General", "Triangle", "term:", "range:", "Engine:", "RuleBlock:", "OutputVariable:", "200", "Minimum", "Automatic"])}})
                 ops.append({"op": "import_store"})
-        yield {"arm": "clean", "config": sp, "ops": ops}
+        tr = {"arm": "clean", "config": sp, "ops": ops}
+        if rng.random() < 0.03:
+            tr["debugging"] = True  # the library's debug mode (settings.debugging): extra code paths in the parsers
+        yield tr
 
     # ---------------------------------------------------------------- execution
     def execute(self, trace: dict, keep_log: bool = False) -> Outcome:
@@ -326,6 +364,9 @@ class C16(Sim):
             if log is not None:
                 log.append(line)
 
+        if trace.get("debugging"):
+            fl.settings.debugging = True  # env.reset_settings() puts the level back to ERROR before the next trace
+            st.hit("probes.library_debug_mode")
         try:
             E = S.build(sp)
         except Exception as ex:
@@ -336,6 +377,7 @@ class C16(Sim):
         if sp.get("flags", {}).get("example"):
             st.hit("probes.shipped_example_engine")
         vocab = sorted({v["name"] for v in sp["inputs"] + sp["outputs"]} | {t["name"] for v in sp["inputs"] + sp["outputs"] for t in v["terms"]})
+        var_names = [v["name"] for v in sp["inputs"] + sp["outputs"]]
         store = TornStore()
         for _cls in S.classes_of(sp):
             st.hit("classes." + _cls)
@@ -386,7 +428,7 @@ class C16(Sim):
                     else:
                         words = orig_text[(bi, ri)].split()
                         for _ in range(mut.get("times", 1)):
-                            words = mutate_generic(mr, words, mut["generic"], vocab)
+                            words = mutate_generic(mr, words, mut["generic"], vocab, var_names)
                         mclass = "G:" + mut["generic"]
                         st.hit("faults.rule_generic_" + mut["generic"])
                     text = " ".join(words)
@@ -445,8 +487,11 @@ class C16(Sim):
                             try:
                                 rule.activate_with(blk.conjunction, blk.disjunction)
                                 rule.deactivate()
-                            except (ValueError, RuntimeError):
-                                st.hit("outcomes.accepted_rule_needs_missing_operator")
+                            except (ValueError, RuntimeError) as ex:
+                                if eval_error_tolerated(rule, blk):
+                                    st.hit("outcomes.accepted_rule_needs_missing_operator")
+                                else:
+                                    v = Violation("accepted_rule_cannot_be_evaluated", i, text=text, exception=type(ex).__name__, message=str(ex)[:120])
                             except Exception as ex:
                                 v = Violation("accepted_rule_cannot_be_evaluated", i, text=text, exception=type(ex).__name__, message=str(ex)[:120])
                 if v is None and all_rule_snaps(skip=(bi, ri)) != others:
@@ -468,7 +513,7 @@ class C16(Sim):
                 else:
                     words = orig_text[(bi, ri)].split()
                     for _ in range(mut.get("times", 1)):
-                        words = mutate_generic(mr, words, mut["generic"], vocab)
+                        words = mutate_generic(mr, words, mut["generic"], vocab, var_names)
                     st.hit("faults.fresh_generic_" + mut["generic"])
                 text = " ".join(words)
                 others = all_rule_snaps()
@@ -503,8 +548,10 @@ class C16(Sim):
                                 break
                             try:
                                 r2.activate_with(E.rule_blocks[bi].conjunction, E.rule_blocks[bi].disjunction)
-                            except (ValueError, RuntimeError):
-                                pass
+                            except (ValueError, RuntimeError) as ex:
+                                if not eval_error_tolerated(r2, E.rule_blocks[bi]):
+                                    v = Violation("accepted_rule_cannot_be_evaluated", i, text=text, exception=type(ex).__name__, via=op["via"])
+                                    break
                             except Exception as ex:
                                 v = Violation("accepted_rule_cannot_be_evaluated", i, text=text, exception=type(ex).__name__, via=op["via"])
                                 break
@@ -567,8 +614,13 @@ class C16(Sim):
                             continue
                         try:
                             r2.activate_with(b2.conjunction, b2.disjunction)
-                        except (ValueError, RuntimeError):
-                            st.hit("outcomes.loaded_rule_needs_missing_operator")
+                        except (ValueError, RuntimeError) as ex:
+                            if eval_error_tolerated(r2, b2):
+                                st.hit("outcomes.loaded_rule_needs_missing_operator")
+                            else:
+                                v = Violation("loaded_rule_cannot_be_evaluated", i, text=r2.text, exception=type(ex).__name__,
+                                              message=str(ex)[:120], site=_site(ex))
+                                break
                         except Exception as ex:
                             v = Violation("loaded_rule_cannot_be_evaluated", i, text=r2.text, exception=type(ex).__name__,
                                           message=str(ex)[:120], site=_site(ex))
@@ -688,8 +740,13 @@ class C16(Sim):
                                         break
                                     try:
                                         r2.activate_with(b2.conjunction, b2.disjunction)
-                                    except (ValueError, RuntimeError):
-                                        st.hit("outcomes.imported_rule_needs_missing_operator")
+                                    except (ValueError, RuntimeError) as ex:
+                                        if eval_error_tolerated(r2, b2):
+                                            st.hit("outcomes.imported_rule_needs_missing_operator")
+                                        else:
+                                            v = Violation("imported_rule_cannot_be_evaluated", i, text=r2.text, exception=type(ex).__name__,
+                                                          message=str(ex)[:160], site=_site(ex))
+                                            break
                                     except Exception as ex:
                                         v = Violation("imported_rule_cannot_be_evaluated", i, text=r2.text, exception=type(ex).__name__,
                                                       message=str(ex)[:160], site=_site(ex))
